@@ -7,7 +7,7 @@ open Ws
          route=r|u|n inbox=<in>,… reasons=<int>,… mwreq=<step>;… mwres=<step>;… script=<step>;… custom=none|h:<step>;… fd=-|<int>
 
     step = <op>:<catch 0|1|2>:<disc -|int>;  op = A<headers><subprotocol><badsub> | C(n|x|<int>)[+] | St | Sb | Rt | Rd | Rm |
-    H<status> | T<status> | X | B;  in = t1 | t0 | b | dn | d<code>
+    H<status> | T<status> | X | B | E<class>;  in = t1 | t0 | b | dn | d<code>
 
     reply: sent=<ev>,… log=<outcome>,… hlog=<outcome>,… esc=<exc>|- pub=<unaccepted><closed><ready>|- -/
 
@@ -17,6 +17,20 @@ def kv (ws : List String) (k : String) : String :=
   | none => ""
 
 def b01 (c : Char) : Bool := c == '1'
+
+/-- `E<class>`: the script itself raises an exception of one of the framework's own classes (by hand, or out of an operation on
+    another connection's socket): ona | pte | vei | veo | ose | ae | wsdn | wsd<code> (the argument of `WebSocketDisconnected(...)`) -/
+def parseExc (r : List Char) : Option Exc :=
+  match r with
+  | ['o', 'n', 'a'] => some .notAllowed
+  | ['p', 't', 'e'] => some .payloadType
+  | ['v', 'e', 'i'] => some .invalidCloseCode
+  | ['v', 'e', 'o'] => some .valueOther
+  | ['o', 's', 'e'] => some .osErr
+  | ['a', 'e'] => some .assertion
+  | ['w', 's', 'd', 'n'] => some (Ws.wsd none)
+  | 'w' :: 's' :: 'd' :: r => (String.ofList r).toInt?.map fun c => Ws.wsd (some c)
+  | _ => none
 
 def parseOp (s : String) : Option Op :=
   match s.toList with
@@ -37,6 +51,7 @@ def parseOp (s : String) : Option Op :=
   | 'T' :: r => (String.ofList r).toInt?.map .raiseStatus
   | ['X'] => some .raiseExc
   | ['B'] => some .raiseBoom
+  | 'E' :: r => (parseExc r).map .raiseOf
   | _ => none
 
 def parseIn (s : String) : Option InEv :=
